@@ -673,3 +673,30 @@ def eat_drains_queue(ctx, rule, which):
     ctx.ob(rule, "eat-drains-the-queue-when-it-needs-more/%s" % which, ok,
            "when eat() answers 'need more input' it has moved the *whole* queue into temp_buf (a loop over input.next())" if ok else
            "eat() can answer 'need more input' leaving characters in the caller's queue (or moving only part of them): the stashed text and the rest of the input are re-joined in the wrong order or not at all", "%s tokenizer eat" % which)
+
+
+def end_uses_one_queue(ctx, rule, which):
+    """end(): what the character-reference sub-tokenizer un-consumes at end of input goes into the very queue that run() then
+    processes - the queue handed to end_of_file and the queue handed to run are the same local"""
+    from lib.ast import walk
+    crate = "html5ever" if which == "html" else "xml5ever"
+    ty = "Tokenizer" if which == "html" else "XmlTokenizer"
+    its = [it for it in ctx.ast.walkable(crate) if it["k"] == "Fn" and it["name"] == "end" and (it.get("self_ty") or "").replace(" ", "").startswith(ty) and it.get("body") is not None]
+    if len(its) != 1:
+        raise AnchorMissing("%s::end" % ty)
+    eof, run = [], []
+
+    def root(e):
+        while isinstance(e, dict) and e.get("k") in ("Ref", "Unary", "Paren"):
+            e = e["e"]
+        return e["path"] if isinstance(e, dict) and e.get("k") == "Path" else None
+
+    def f(n):
+        if n.get("k") == "MethodCall" and n["m"] == "end_of_file" and len(n["args"]) == 2:
+            eof.append(root(n["args"][1]))
+        if n.get("k") == "MethodCall" and n["m"] == "run" and len(n["args"]) == 1 and root(n.get("recv")) == "self":
+            run.append(root(n["args"][0]))
+    walk(its[0]["body"], f)
+    ok = len(eof) == 1 and len(run) >= 1 and eof[0] is not None and all(r == eof[0] for r in run)
+    ctx.ob(rule, "end-unconsumes-into-the-queue-it-runs/%s" % which, ok, "end_of_file and run share the local queue `%s`" % eof[0] if ok else
+           "end() hands end_of_file the queue %s and run() the queue %s: text the character-reference tokenizer un-consumes at end of input (e.g. `&am`) is lost" % (eof, run), "%s tokenizer end" % which)
